@@ -750,3 +750,12 @@ package server
 // partitions rebuilt from a snapshot are created in recovery mode (not started); something must then end the recovery.
 // Today only Apply does, when it reaches the last entry of a replayed log tail - if the log holds no command after
 // the snapshot, nothing ever starts the restored partitions (C06: the restarted server must reach the state it had)
+
+// a replica that joins the in-sync set counts as having stored NOTHING until it reports progress itself: messages
+// appended but not yet committed at that moment must wait for it before they are acknowledged (C04, C02)
+//@ ghost var isReplica bool
+//@ func (*partition).AddToISR serves C04, C02
+//@   requires p != nil
+//@   ensures [new-member-starts-unreplicated] result == nil ==> (rep in p.isr) && p.isr[rep] != nil && p.isr[rep].offset == -1
+//@   ensures [only-a-replica] result == nil ==> ghost.isReplica
+//@   ghost after call inReplicas: ghost.isReplica := ret0
